@@ -35,8 +35,8 @@ func main() {
 		return true
 	}
 	var all []rl.Scenario
-	all = append(all, rl.BeforeRunning(rng, a.Thorough())...)
 	all = append(all, rl.LockOrder(rng, a.Thorough())...)
+	all = append(all, rl.BeforeRunning(rng, a.Thorough())...)
 	all = append(all, rl.LastMessage(rng, a.Thorough())...)
 	all = append(all, rl.PathPoints(rng, a.Thorough())...)
 	all = append(all, rl.ClosePoints(rng, a.Thorough())...)
